@@ -29,7 +29,14 @@ def minimize(replay_fn, steps, cls, max_runs=300, wall=60.0, workers=16):
         return None
 
     cur = list(steps)
-    # 0. truncate after the failing step
+    # 0. drop the steps the executor skipped anyway (dangling symbols)
+    out = runner.run_parallel(replay_fn, [cur], workers=1, wall=wall)
+    runs[0] += 1
+    if out and out[0][1].get("ok") and _same(out[0][1]["res"], cls):
+        oc = out[0][1]["res"].get("outcomes", [])
+        c2 = [s for s, o in zip(cur, oc + ["?"] * len(cur)) if o != "skipped"]
+        if len(c2) < len(cur) and test_many([c2]) is not None:
+            cur = c2
     # 1. ddmin on steps
     n = 2
     while len(cur) >= 2 and runs[0] < max_runs:
